@@ -252,6 +252,8 @@ pub const CORPUS: &[(&str, &str)] = &[
     ("unary-minus-before-blocks", "min -sum(i in 0..2) { x_i } - -abs { x_0 } + -(x_0 + x_1) - max { x_0, -x_1 } * -2\ns.t.\n    -min { x_0, x_1 } <= 0\n    -x_0 <= -(-1)\ndefine\n    x_i as Real(-3, 3) for i in 0..2\n"),
     ("strict-comparisons", "min x\ns.t.\n    x > 1\n    x + y < 4\n    2 * y > -3\ndefine\n    x, y as Real(0, 10)\n"),
     ("mixed-matrix", "min sum(i in 0..2, j in 0..2) { M[i][j] * x_i } + k * x_0 + T[1][0][1] * x_1\ns.t.\n    x_i >= M[i][0] for i in 0..2\n    x_0 <= M[1][1] + len(M[0])\nwhere\n    let M = [[1, 2], [3, 4.5]]\n    let T = [[[1, 2], [3, 4]], [[5, 6.5], [7, 8]]]\n    let k = M[0][1]\ndefine\n    x_i as Real(0, 20) for i in 0..2\n"),
+    ("named-logic-assertions", "solve\ns.t.\n    pick: a_0 xor b_0\n    one_i: a_i implies not b_i for i in 0..2\n    both: (a_0 or b_1) and not (a_1 and b_0)\n    a_1 iff b_1\ndefine\n    a_i, b_i as Boolean for i in 0..2\n"),
+    ("zip-unequal-lengths", "min sum((p, q) in zip(A, B)) { p * x + q } + sum((q, p) in zip(B, A)) { q * x } + sum((p, q, r) in zip(A, B, C)) { (p + q + r) * x }\ns.t.\n    x >= p - q for (p, q) in zip(A, B)\nwhere\n    let A = [1, 2, 3]\n    let B = [4, 5]\n    let C = [6]\ndefine\n    x as Real(0, 9)\n"),
 ];
 
 pub fn run(mut run: Run) -> ! {
